@@ -111,8 +111,8 @@ def check(ctx):
     from .c03 import resource_table
     o = ctx.ob('resource_of_its_own', 'R5',
                "every resource name gets a Resource object of its own (table keyed by name, a fresh default Resource per undeclared "
-               "name): capacity is measured per resource, not against one shared default object", floor=3)
-    ctx.guarded(o, lambda o: resource_table(ctx, o, (S,)))
+               "name): capacity is measured per resource, not against one shared default object", floor=2)
+    ctx.guarded(o, lambda o: resource_table(ctx, o, (S,), check_result=False))   # which resources the result lists is C03's clause
 
     o = ctx.ob('selector_everywhere', 'R11',
                "every ledger query of the backward scheduler uses the selector 'all tasks when balancing, own task otherwise' "
